@@ -71,6 +71,9 @@ class GrowingStream(io.RawIOBase):
         return p
 
     def read(self, n=-1):
+        if n == 0:                      # like every real raw stream: read(0) is b'', never "no data yet"
+            self.log.append(('read', 0, b''))
+            return b''
         avail = len(self._data) - self._pos
         if avail <= 0:
             r = b'' if self._eof else None
